@@ -26,7 +26,8 @@ type pipeCfg struct {
 	nProd, nMsg int
 	// mode: 0 Disconnect() call, 1 connection loss (remote closes), 2 both,
 	// 3 Disconnect() before any caller starts, 4 disconnect only after all
-	// messages were written.
+	// messages were written, 5 callers start while the handshake is still in
+	// progress (Disconnect() at fireAt), 6 the same with a failing handshake.
 	mode int
 	// fireAt: the disconnect fires once this many QueueMessage calls returned.
 	fireAt int
@@ -99,14 +100,31 @@ func runPipe(c pipeCfg) pipeObs {
 	me := wire.NewNetAddressIPPort(net.ParseIP("10.1.2.3"), 18555, 0)
 	you := wire.NewNetAddressIPPort(net.ParseIP("10.9.9.9"), 8333, 0)
 	nonceCtr += 0x9E3779B97F4A7C15
-	re.Write(encMsg(wire.NewMsgVersion(me, you, nonceCtr, 0), btcnet))
-	re.Write(encMsg(wire.NewMsgVerAck(), btcnet))
-	select {
-	case <-ready:
-	case <-time.After(waitLimit):
-		obs.note = "handshake-timeout"
-		p.Disconnect()
-		return obs
+	handshake := func() {
+		if c.mode == 6 {
+			re.Write(encMsg(wire.NewMsgGetAddr(), btcnet))
+			return
+		}
+		re.Write(encMsg(wire.NewMsgVersion(me, you, nonceCtr, 0), btcnet))
+		re.Write(encMsg(wire.NewMsgVerAck(), btcnet))
+	}
+	if c.mode < 5 {
+		handshake()
+		select {
+		case <-ready:
+		case <-time.After(waitLimit):
+			obs.note = "handshake-timeout"
+			p.Disconnect()
+			return obs
+		}
+	} else {
+		go func() {
+			hr := core.NewRand(c.seed ^ 0x77)
+			for i, n := 0, hr.Intn(4); i < n; i++ {
+				perturb(hr)
+			}
+			handshake()
+		}()
 	}
 
 	total := c.nProd * c.nMsg
@@ -134,7 +152,7 @@ func runPipe(c pipeCfg) pipeObs {
 	fire := func() {
 		dseq.Store(seq.Add(1))
 		switch c.mode {
-		case 0, 3, 4:
+		case 0, 3, 4, 5, 6:
 			p.Disconnect()
 			dret.Store(seq.Add(1))
 		case 1:
